@@ -240,11 +240,13 @@ func randomHistory(c *lib.Ctx, r *rand.Rand, db histDB, steps int) []Event {
 		}
 	}
 	emit(Event{A: "Start"})
+	dirty := false // the world changed under the live cursor: its results are Unspecified until a new one is made
 	for len(evs) < steps && !fail {
 		x := r.Intn(100)
 		switch {
-		case w.cur == nil || x < 8:
+		case w.cur == nil || x < 8 || (dirty && x < 75):
 			emit(Event{A: "NewCursor", P: vPrefixes[r.Intn(len(vPrefixes))], D: r.Intn(2) == 0})
+			dirty = false
 		case x < 50:
 			// runs of Prev / Next so that walks reach both ends and turn around
 			a := "Prev"
@@ -260,10 +262,12 @@ func randomHistory(c *lib.Ctx, r *rand.Rand, db histDB, steps int) []Event {
 			emit(Event{A: "Prev"})
 		case x < 87:
 			emit(Event{A: "AddHere", T: text()})
+			dirty = true
 		case x < 95:
 			emit(Event{A: "AddElsewhere", T: text()})
 		default:
 			del()
+			dirty = true
 		}
 	}
 	return evs
